@@ -26,18 +26,27 @@ MARKS = {
     7: ("build_xsi_cache", "self.sys_modules = len(sys.modules)"),
     8: ("find_types", "if qname in self.xsi_cache:"),
     9: ("find_types", "return self.xsi_cache[qname]"),
+    12: ("local_names_match", "if clazz in self.unsupported:"),
+    13: ("local_names_match", "self.unsupported.add(clazz)"),
+    14: ("get_field_diff", "meta = self.cache[clazz]"),
 }
 # lines that must NOT come back: the in-place rebuild fixed by /repo ece294b
-FORBIDDEN = [("build_xsi_cache", "self.xsi_cache.clear()"),
-             ("build_xsi_cache", "self.xsi_cache[meta.target_qname].append(clazz)")]
+FORBIDDEN = [("build_xsi_cache", "self.xsi_cache.clear()", "cold-index-race", "ece294b"),
+             ("build_xsi_cache", "self.xsi_cache[meta.target_qname].append(clazz)", "cold-index-race", "ece294b"),
+             # the in-place pruning fixed by /repo c28ded8
+             ("local_names_match", "self.xsi_cache[target_qname].remove(clazz)", "concurrent-prune-value-error", "c28ded8")]
 
-SUPPORTED_CALLS = ("build", "fetch", "find_type", "find_types", "find_subclass")
+SUPPORTED_CALLS = ("build", "fetch", "find_type", "find_types", "find_subclass", "find_type_by_fields", "local_names_match")
 
 
 def supported(op):
     k = op["kind"]
     if k in ("ser", "enc", "jser", "parse"):
         return not op["needs"]
+    if k in ("dec", "jparse"):
+        # untyped / typed dict decoding; not the ones that go through bind_best_dataclass (a set of
+        # candidate classes is iterated in address order there)
+        return not op["needs"] and "Holder" not in op["tag"]
     if k == "call":
         return op["name"] in SUPPORTED_CALLS and not op["needs"]
     return False
@@ -51,6 +60,11 @@ CLOSED_SETS = [
      "find_types:Leaf", "ser:Tgt", "parse-auto:Tgt", "find_type:{urn:none}Nobody", "parse:PA-as-PB"],
     ["jser:Leaf", "ser:Leaf", "parse:Leaf", "parse-auto:Leaf", "ser:Mid", "parse:Mid", "jser:Mid", "jser:Own", "ser:Own",
      "find_type:{urn:o}Own", "parse:Wild", "ser:Wild", "find_type:XmlParser", "build:Leaf,None"],
+    # untyped dict/JSON decoding (find_type_by_fields builds every class under no parent namespace)
+    ["dec-auto:x", "dec-auto:x", "dec-auto:nomatch", "jparse-auto:PA", "jparse:PA", "jparse:Leaf", "jser:Leaf", "jser:PA",
+     "dec:unknown-key", "by_fields:x", "by_fields:y", "names_match:Broken", "names_match:Leaf", "find_type:Leaf",
+     "find_type:{urn:k}Broken", "build:Leaf,None", "ser:Leaf", "parse:Leaf", "ser:Own", "parse-auto:Own", "dec:Own",
+     "dec-auto:Own", "dec-auto:Tgt"],
 ]
 
 
@@ -74,7 +88,9 @@ def run(ck: Check):
                for i in range(len(p1_ops))]
     p1 = run_impl("impl_c14.py", {"static": c14.STATIC, "dynamic": c14.DYNAMIC, "ops": p1_ops, "seqs": p1_seqs})
     fresh_ser = {n: p1["runs"][i][-1]["fresh"] for i, n in enumerate(names)}
-    ops_all = c14.build_ops(ck, fresh_ser, {})
+    fresh_enc = {n: p1["runs"][len(names) + i][-1]["fresh"] for i, n in enumerate(names)
+                 if n in ("PA", "Leaf", "Own", "Mid", "Tgt", "PB")}
+    ops_all = c14.build_ops(ck, fresh_ser, fresh_enc)
     ops = [o for o in ops_all if supported(o)]
     by_tag = {o["tag"]: i for i, o in enumerate(ops)}
     n_index = len(c14.STATIC) + 18      # refined below from the implementation's answer
@@ -89,6 +105,11 @@ def run(ck: Check):
         for t in (ft, pr, by_tag["parse:Holder"]):
             runs.append({"warm": [], "threads": [t, t], "schedule": [0, 1, 1, 1, 0, 1, 1]})
             kinds["witness"] += 1
+        # the schedule of the former ValueError of local_names_match (/repo c28ded8): both threads fail to build
+        # the first unbuildable class of the index before either records it
+        dx = by_tag["dec-auto:x"]
+        runs.append({"warm": [], "threads": [dx, dx], "schedule": [0] * 5 + [1] * 5 + [0, 1] * 4})
+        kinds["witness"] += 1
         # the concurrent form of the cache-key defect
         runs.append({"warm": [ft], "threads": [by_tag["ser:PA"], by_tag["ser:PB"]], "schedule": [0, 0, 0, 0, 1, 1, 1, 1, 1, 0]})
         kinds["witness"] += 1
@@ -122,11 +143,11 @@ def run(ck: Check):
                "step_timeout": 20.0}
     import re as _re
     src_ctx = open(os.path.join(common.REPO, "xsdata/formats/dataclass/context.py"), encoding="utf-8").read()
-    for fn, text in FORBIDDEN:
+    for fn, text, cls_, fixed_in in FORBIDDEN:
         body = _re.search(r"def %s\(.*?(?=\n    def |\Z)" % fn, src_ctx, _re.S)
         if body and any(line.strip() == text for line in body.group(0).splitlines()):
-            ck.failure("cold-index-race", f"{fn} again contains `{text}`: the index is rebuilt in place on the dict other "
-                       "threads read (regression of /repo ece294b)", {"function": fn, "line": text})
+            ck.failure(cls_, f"{fn} again contains `{text}`: the shared index is mutated in place under the eyes of other "
+                       f"threads (regression of /repo {fixed_in})", {"function": fn, "line": text})
     probe = run_impl("impl_c19.py", dict(payload, runs=[]), timeout=300)
     if "mark_error" in probe:
         # the schedules cannot be replayed; still look for a concrete failing call without the scheduler
@@ -142,15 +163,21 @@ def run(ck: Check):
     n_index = len(probe["order"])
     stress_threads = [by_tag[t] for t in ("parse-auto:PA", "find_type:Leaf", "parse:Holder", "parse-auto:Own", "ser:Own",
                                           "find_type:{urn:h}Base", "parse-auto:Tgt", "find_subclass:Base,Der2")] * 2
+    # a second stress set: untyped dict/JSON decoding (find_type_by_fields / local_names_match) with typed JSON work
+    stress_threads2 = [by_tag[t] for t in ("dec-auto:x", "jparse-auto:PA", "dec-auto:nomatch", "jser:PA", "by_fields:y",
+                                           "names_match:Broken", "find_type:{urn:k}Broken", "dec-auto:Own")] * 2
+    stress_sets = [stress_threads, stress_threads2]
     runs, kinds = gen_runs(n_index)
+    runs.append({"warm": [], "threads": stress_threads2, "schedule": []})
+    kinds["witness"] += 1
     nproc = ck.n(4, 12)
     chunks = [runs[i::nproc] for i in range(nproc)]
     import concurrent.futures as cf
     with cf.ThreadPoolExecutor(max_workers=nproc) as ex:
         outs = list(ex.map(lambda a: run_impl("impl_c19.py", dict(payload, runs=a[1],
-                                                                 stress={"rounds": ck.n(40, 2000), "threads": stress_threads,
+                                                                 stress={"rounds": ck.n(40, 2000), "threads": stress_sets[a[0]],
                                                                          "warm": [by_tag["find_type:Leaf"]]}
-                                                                 if a[0] == 0 else None), timeout=2400),
+                                                                 if a[0] < 2 else None), timeout=2400),
                            enumerate(chunks)))
     res_runs = [None] * len(runs)
     for k, o in enumerate(outs):
@@ -212,26 +239,30 @@ def run(ck: Check):
                        replay(i))
         if s & 32:
             stats["cold"] += 1
-    # un-forced stress (search only)
-    st = outs[0]["stress"]
-    if st and st["mismatches"]:
-        ck.notes.append(f"un-forced stress: {len(st['mismatches'])}+ mismatching calls in {st['rounds']} rounds, e.g. "
-                        f"{ops[st['mismatches'][0]['op']]['tag']}: {st['mismatches'][0]['got']} vs solo {st['mismatches'][0]['solo']}")
-        ck.failure("cold-index-race", "un-forced 16-thread stress on a cold context (thread set inside the guard): a call "
-                   f"differs from its solo result ({ops[st['mismatches'][0]['op']]['tag']})", {"stress": st})
-    elif st:
-        ck.notes.append(f"un-forced stress: no mismatch in {st['rounds']} rounds of 16 threads")
-    if st and st.get("warm"):
-        # the same threads on a context whose index is current: inside the guard of warm_context_safe
-        m = st["warm"][0]
-        ck.failure("concurrent-difference-inside-guard", "un-forced 16-thread stress on a WARM context: a call differs from "
-                   f"its solo result ({ops[m['op']]['tag']}: {m['got']} vs {m['solo']})", {"stress": st})
+    # un-forced stress: thread sets inside the guard, so any mismatch is a violation
+    for which, st in enumerate([outs[0]["stress"], outs[1]["stress"] if len(outs) > 1 else None]):
+        if not st:
+            continue
+        if st["mismatches"]:
+            m = st["mismatches"][0]
+            ck.notes.append(f"un-forced stress set {which}: {len(st['mismatches'])}+ mismatching calls in {st['rounds']} rounds, "
+                            f"e.g. {ops[m['op']]['tag']}: {m['got']} vs solo {m['solo']}")
+            ck.failure("cold-index-race" if which == 0 else "concurrent-difference-inside-guard",
+                       f"un-forced 16-thread stress (set {which}) on a cold context, thread set inside the guard: a call "
+                       f"differs from its solo result ({ops[m['op']]['tag']}: {m['got']} vs {m['solo']})", {"stress": st})
+        else:
+            ck.notes.append(f"un-forced stress set {which}: no mismatch in {st['rounds']} rounds of 16 threads (cold and warm)")
+        if st.get("warm"):
+            m = st["warm"][0]
+            ck.failure("concurrent-difference-inside-guard", f"un-forced 16-thread stress (set {which}) on a WARM context: a call "
+                       f"differs from its solo result ({ops[m['op']]['tag']}: {m['got']} vs {m['solo']})", {"stress": st})
     if stats["guarded"] == 0:
         ck.failure("harness-guard-vacuous", "no generated case satisfies the guard of context_safe", {"kinds": kinds})
-    stress_case = [k for k, i in enumerate(idx) if runs[i]["threads"] == stress_threads and not runs[i]["schedule"]]
-    if not stress_case or not summ[stress_case[0]] & 16:
-        ck.failure("harness-stress-set-not-closed", "the thread set of the un-forced stress is not inside the guard",
-                   {"threads": [ops[t]["tag"] for t in stress_threads]})
+    for sset in stress_sets:
+        stress_case = [k for k, i in enumerate(idx) if runs[i]["threads"] == sset and not runs[i]["schedule"]]
+        if not stress_case or not summ[stress_case[0]] & 16:
+            ck.failure("harness-stress-set-not-closed", "a thread set of the un-forced stress is not inside the guard",
+                       {"threads": [ops[t]["tag"] for t in sset]})
     ck.cov["distinct_nontrivial"] = len(distinct)
     ck.cov["rule"] = ("(prepared context, one operation per thread, schedule) triples replayed line by line on the real "
                       "XmlContext: the witness of the refutation, random bursty schedules with 2-16 threads on cold and warm "
